@@ -1,7 +1,7 @@
 import LokyModel.ExecLiveKDef
 /-! Random-walk evaluation of the executable deadlock-freedom ingredients (`LokyModel/ExecLive.lean`) on M1.
 
-    lake env lean --run Drivers/LiveCheckK.lean <runs> <seed>   (static pools WITH `shutdown(kill_workers=True)`, crash steps at
+    lake env lean --run Drivers/LiveCheckK.lean <runs> <seed> [heavy]   (static pools WITH `shutdown(kill_workers=True)`, crash steps at
                                                                  lock-free points)
 
 Phase 1 (the manager has not yet seen the kill flag): `phase1K` (the crash-aware ingredients of the un-killed state), the
@@ -16,7 +16,7 @@ open LokyModel.Exec
 def lcg (x : Nat) : Nat := (x * 6364136223846793005 + 1442695040888963407) % 18446744073709551616
 def pick (r : Nat) (n : Nat) : Nat := (r / 65536) % (if n = 0 then 1 else n)
 
-def genCfg (r0 : Nat) (timeouts : Bool) : Cfg × Nat := Id.run do
+def genCfg (r0 : Nat) (timeouts : Bool) (heavy : Bool := false) : Cfg × Nat := Id.run do
   let mut r := lcg r0
   let mw := 1 + pick r 3
   r := lcg r
@@ -43,13 +43,13 @@ def genCfg (r0 : Nat) (timeouts : Bool) : Cfg × Nat := Id.run do
       r := lcg r
       let sw := pick r 2 == 0
       r := lcg r
-      let sk := pick r 3 != 0
-      sc := sc ++ [if k < 5 then UOp.submit t else if k < 7 then UOp.cancel t else if k < 8 then UOp.idle
+      let sk := heavy || pick r 3 != 0
+      sc := sc ++ [if k < 5 then UOp.submit t else if k < 7 then UOp.cancel t else if k < (if heavy then 7 else 8) then UOp.idle
                    else if k < 9 then UOp.shutdown sw sk else UOp.submit t]
     r := lcg r
     let e := pick r 10
     r := lcg r
-    let ek := pick r 2 == 0
+    let ek := heavy || pick r 2 == 0
     sc := sc ++ (if e < 3 then [UOp.shutdown true ek] else if e < 4 then [UOp.shutdown false ek]
                  else if e < 5 && u == 0 then [UOp.drop] else if e < 6 then [UOp.pyexit] else [])
     r := lcg r
@@ -90,6 +90,7 @@ def enabledSC (s : St) : List (Actor × Variant) :=
 def main (args : List String) : IO UInt32 := do
   let runs := (args.getD 0 "200").toNat!
   let seed := (args.getD 1 "0").toNat!
+  let heavy := (args.getD 2 "") == "heavy"   -- third argument `heavy`: every shutdown in the scripts is a forced one
   let timeouts := false
   let mut r := lcg (seed * 7919 + 17)
   let mut states := 0
@@ -102,7 +103,7 @@ def main (args : List String) : IO UInt32 := do
   let mut shutErr := 0
   let mut lockedKill := 0
   for i in [0:runs] do
-    let (cfg, r') := genCfg r timeouts
+    let (cfg, r') := genCfg r timeouts heavy
     r := r'
     if !timeouts && !cfg.staticPoolK then
       IO.println s!"generator produced a non-static configuration at run {i}"
